@@ -371,6 +371,29 @@ def branch_matrix():
         body += acc + [('local.get', 1), ('local.tee', 0), ('i32.add',), ('local.get', 0), ('i32.add',)]
         f = Func(CF_PARAMS, [I32], locs, body)
         out.append(('locals_v%d' % variant, Module(imports=[HOST_H], funcs=[f], exports=[('f', 'func', 1)])))
+    # locals declared through unusual but valid run-length groups: zero-count groups first / in the middle / last,
+    # one group per local although neighbours share a type; written, read back and folded so that a mis-typed or
+    # mis-indexed local changes the result
+    for gi, groups in enumerate([[(0, I32), (1, I64)], [(0, F64), (2, I32), (0, I64), (1, F32)], [(1, I64), (1, I64), (1, I32)], [(2, F64), (0, I32)], [(0, I64), (0, F32), (3, I32)]]):
+        locs = [t for (n, t) in groups for _ in range(n)]
+        base = len(CF_PARAMS)
+        body = []
+        src = {I32: ('local.get', 1), I64: ('local.get', 2), F32: ('local.get', 3), F64: ('local.get', 4)}
+        for i, t in enumerate(locs):
+            body += [src[t]]
+            if t == I32:
+                body += [('i32.const', 7 + i), ('i32.add',)]
+            elif t == I64:
+                body += [('i64.const', (1 << 33) + i), ('i64.add',)]
+            body += [('local.set', base + i)]
+        acc = [('i64.const', 0)]
+        for i, t in enumerate(locs):
+            acc += [('i64.const', 3), ('i64.rotl',), ('local.get', base + i)]
+            acc += {I32: [('i64.extend_i32_u',)], I64: [], F32: [('i32.reinterpret_f32',), ('i64.extend_i32_u',)], F64: [('i64.reinterpret_f64',)]}[t]
+            acc += [('i64.xor',)]
+        f = Func(CF_PARAMS, [I64], locs, body + acc)
+        f.local_groups = groups
+        out.append(('locals_groups_%d' % gi, Module(imports=[HOST_H], funcs=[f], exports=[('f', 'func', 1)])))
     return out
 
 
@@ -510,12 +533,12 @@ def memory_family(seed, quick):
             m = Module(funcs=[f, g], mems=mems, datas=datas, exports=[('f', 'func', 0), ('g', 'func', 1)])
             out.append(('store_%s_o%d' % (op.replace('.', '_'), off), m, [{'call': 'f'}, {'call': 'g'}], {'sym_window': 0}))
     # size / grow sequences (state carried across calls); declared max 3, and without declared max
-    for mx in (3, None):
+    for mx in (3, None, 'shared'):
         grow = Func([I32], [I32], [], [('local.get', 0), ('memory.grow',)])
         size = Func([], [I32], [], [('memory.size',)])
         st = Func([I32, I64], [], [], [('local.get', 0), ('local.get', 1), ('i64.store', 0, 0)])
         ld = Func([I32], [I64], [], [('local.get', 0), ('i64.load', 0, 0)])
-        m = Module(funcs=[grow, size, st, ld], mems=[(1, mx)], datas=datas,
+        m = Module(funcs=[grow, size, st, ld], mems=[(1, 3, True)] if mx == 'shared' else [(1, mx)], datas=datas,
                    exports=[('grow', 'func', 0), ('size', 'func', 1), ('st', 'func', 2), ('ld', 'func', 3)])
         for si, script in enumerate([[{'call': 'st'}, {'call': 'grow'}, {'call': 'size'}, {'call': 'ld'}],
                                       [{'call': 'grow'}, {'call': 'grow'}, {'call': 'size'}],
